@@ -5,6 +5,7 @@ pub mod c02;
 pub mod c03;
 pub mod c04;
 pub mod c05;
+pub mod c06;
 pub mod c07;
 pub mod c09;
 pub mod c10;
@@ -64,6 +65,7 @@ pub fn dispatch(id: &str, tier: Tier, replay: Option<&str>) -> i32 {
         "C03" => c03::run(tier),
         "C04" => c04::run_c04(tier),
         "C05" => c05::run_check(tier),
+        "C06" => c06::run_check(tier),
         "C07" => c07::run(tier),
         "C08" => c08::run(tier),
         "C09" => c09::run(tier),
